@@ -51,6 +51,69 @@ NAME_PARAMS = {"run": {"run"}, "fill": {"fill"}, "compute": {"compute"}, "reques
 CASTS = {("FillCompute", "compute"): {"request"}, ("FillRequest", "_el_request"): {"compute"}}
 
 
+def real(stmts):
+    """Statements without no-op expression statements (`None`, `...`, a stray string) and `pass`."""
+    return [st for st in stmts if not (isinstance(st, ast.Pass) or (isinstance(st, ast.Expr) and isinstance(st.value, ast.Constant)))]
+
+
+def local_names(fn):
+    """Names bound inside fn (assignments, loop/with/except/comprehension targets) that are not parameters."""
+    params = set(A.func_params(fn))
+    out = set()
+    for n in A.walk_local(fn):
+        if isinstance(n, ast.Name) and isinstance(n.ctx, (ast.Store, ast.Del)) and n.id not in params:
+            out.add(n.id)
+        elif isinstance(n, ast.ExceptHandler) and n.name and n.name not in params:
+            out.add(n.name)
+    return out
+
+
+def pkey(fn, p, limit=2):
+    """p.describe(limit) with every local of fn written `_`: a finding key that does not depend on how locals are named."""
+    m = dict((n, "_") for n in local_names(fn))
+    conds = []
+    for t, pol in p.literals():
+        s = A.src_with(t, m)
+        if not pol:
+            s = "not (%s)" % s if isinstance(t, (ast.BoolOp, ast.Compare, ast.IfExp)) else "not " + s
+        conds.append(s)
+    excs = [A.short(e[1].type, 40) if e[1].type is not None else "BaseException" for e in p.ev if e[0] == "exc"]
+    s = " and ".join(conds[-limit:]) if conds else "(unconditional)"
+    if excs:
+        s += " [in handler of %s]" % ", ".join(excs)
+    return s
+
+
+def local_map(fn, derived):
+    """Mapping actual -> canonical for A.src_with from {canonical: actual local name or None}.  A different
+    local that happens to carry a canonical name is moved out of the way, so it can never be mistaken for the role."""
+    m = {}
+    for canon, actual in derived.items():
+        if actual is not None:
+            m[actual] = canon
+    used = A.names_in(fn)
+    for canon in derived:
+        if canon in used and canon not in m:
+            m[canon] = canon + "__other"
+    return m
+
+
+def inline(fn, expr, depth=3):
+    """expr with a non-parameter local that has exactly one definition in fn replaced by that definition."""
+    params = A.func_params(fn)
+    while isinstance(expr, ast.Name) and expr.id not in params and depth > 0:
+        v = A.single_def(fn, expr.id)
+        if v is None:
+            break
+        expr, depth = v, depth - 1
+    return expr
+
+
+def one(items):
+    items = list(items)
+    return items[0] if len(items) == 1 else None
+
+
 def canonical(attr):
     return attr[4:] if attr.startswith("_el_") else attr.lstrip("_") if attr == "_call" else attr
 
@@ -179,13 +242,14 @@ def check_adapters(ctx):
     ctx.instances_floor("C05-a/bindings", n_bind, 30, "bindings of protocol attributes over all constructor paths")
     # helper constructors used by Call / SourceEl
     h = ctx.tree.func(AD, "_init_callable")
+    hself = (A.func_params(h) or [None])[0]
     for p in P.paths_of(h):
         if p.end == "raise":
             continue
         for i, e in enumerate(p.ev):
             if e[0] == "stmt" and isinstance(e[1], ast.Assign):
                 for t in e[1].targets:
-                    if isinstance(t, ast.Attribute) and isinstance(t.value, ast.Name) and t.value.id == "self" and t.attr in PROTO:
+                    if isinstance(t, ast.Attribute) and isinstance(t.value, ast.Name) and t.value.id == hself and t.attr in PROTO:
                         check_binding(ctx, "Call/_init_callable", h, A.func_params(h), p, i, t.attr, e[1].value)
     for r in A.walk_local(h):
         if isinstance(r, ast.Raise):
@@ -199,14 +263,16 @@ def check_raise(ctx, cname, f, r):
         return
     ex = r.exc.func if isinstance(r.exc, ast.Call) else r.exc
     canon = res.canon(ex) if isinstance(ex, (ast.Name, ast.Attribute)) else None
+    what = A.short(ex, 40)
     if canon is None and isinstance(ex, ast.Name):
         # `raise err` of a caught exception
         h = A.enclosing(r, (ast.ExceptHandler,))
         if h is not None and h.name == ex.id and h.type is not None:
             canon = res.canon(h.type)
+            what = "caught %s" % A.short(h.type, 40)   # the handler's name for the exception is a local
     ctx.check("C05-a", canon in LENA_ERRORS, r, "%s rejects its arguments with `%s` (%s), not LenaTypeError/LenaValueError" % (
         cname if "." in cname or cname.startswith("_") else cname + ".__init__", A.short(r, 50), canon),
-        detail="%s raises %s" % (cname, (canon or "?").rsplit(".", 1)[-1]), construct="raise:%s" % A.short(ex, 40))
+        detail="%s raises %s" % (cname, (canon or "?").rsplit(".", 1)[-1]), construct="raise:%s" % what)
 
 
 def check_binding(ctx, cname, init, params, p, idx, attr, value):
@@ -340,7 +406,7 @@ def check_wrappers(ctx):
                         ok = A.src(f) == "self._el"
             ctx.check("C05-b", ok, loop, "Run._call_run does not yield self._el(%s) exactly once for the pulled value on path [%s]: a "
                       "callable in a Sequence would not be a one-to-one map (and would differ from FillInto.fill_into)" % (var, q.describe(3)),
-                      detail="Run._call_run: one yield of self._el(val) per value", construct="call-run:%s" % q.describe(2), path=q)
+                      detail="Run._call_run: one yield of self._el(val) per value", construct="call-run:%s" % pkey(fn, q), path=q)
         outside = [y for y in A.walk_local(fn) if isinstance(y, (ast.Yield, ast.YieldFrom)) and not any(a is loop for a in A.ancestors(y))]
         ctx.check("C05-b", not outside, fn, "Run._call_run yields outside its per-value loop", detail="nothing yielded outside the loop",
                   construct="call-run-outside")
@@ -354,7 +420,7 @@ def check_wrappers(ctx):
             comps = [c for _, c in q.calls() if isinstance(c.func, ast.Attribute) and c.func.attr in ("compute", "request")]
             ok = len(fills) == 1 and A.src(fills[0]) == "self._el.fill(%s)" % var and q.end in ("fall", "continue")
             ctx.check("C05-b", ok, loop, "Run._fc_run does not fill every value exactly once [%s]" % q.describe(3),
-                      detail="Run._fc_run: self._el.fill(value) once per value", construct="fc-run-fill:%s" % q.describe(2), path=q)
+                      detail="Run._fc_run: self._el.fill(value) once per value", construct="fc-run-fill:%s" % pkey(fn, q), path=q)
             ctx.check("C05-b", not comps, loop, "Run._fc_run computes inside the fill loop (`%s`): results would be produced per value, "
                       "not once for the whole flow as FillComputeSeq/Split do" % (A.src(comps[0]) if comps else ""),
                       detail="no compute inside the fill loop", construct="fc-run-compute-in-loop", path=q)
@@ -374,7 +440,7 @@ def check_wrappers(ctx):
                 ok = A.src(rv) == "self._el.compute()"
             ctx.check("C05-b", ok or A.is_generator(fn), fn, "Run._fc_run does not return self._el.compute() computed exactly once after the "
                       "flow is exhausted [%s]" % p.describe(3), detail="Run._fc_run: compute() once, after the loop, returned",
-                      construct="fc-run-compute:%s" % p.describe(2), path=p)
+                      construct="fc-run-compute:%s" % pkey(fn, p), path=p)
     # FillInto.fill_into / _run_fill_into
     fn = ctx.tree.func(AD, "FillInto.fill_into")
     body = A.body_wo_doc(fn)
@@ -400,7 +466,7 @@ def check_wrappers(ctx):
             fills = [c for _, c in q.calls() if isinstance(c.func, ast.Attribute) and c.func.attr == "fill"]
             okq = len(fills) == 1 and A.src(fills[0]) == "%s.fill(%s)" % (ps[0], A.src(l.target)) and q.end in ("fall", "continue")
             ctx.check("C05-b", okq, l, "FillInto._run_fill_into does not fill every result exactly once [%s]" % q.describe(3),
-                      detail="_run_fill_into: element.fill(result) for every result", construct="run-fill-into:%s" % q.describe(2), path=q)
+                      detail="_run_fill_into: element.fill(result) for every result", construct="run-fill-into:%s" % pkey(fn, q), path=q)
     # _Fill.fill
     fn = ctx.tree.func("lena.core.fill_seq", "_Fill.fill")
     body = A.body_wo_doc(fn)
@@ -444,6 +510,21 @@ def check_fill_seq(ctx):
     loops = [l for l in A.walk_local(fn) if isinstance(l, ast.For)]
     conv = [l for l in loops if any(isinstance(c, ast.Call) and res.canon(c.func) == "lena.core.adapters.FillInto" for c in ast.walk(l))]
     nest = [l for l in loops if any(isinstance(c, ast.Call) and A.call_name(c) == "_Fill" for c in ast.walk(l))]
+    # The locals are identified by the role they play, not by what the code calls them:
+    #   seq     -- the list the conversion loop appends to
+    #   last    -- the local defined as self._data_seq[-1]
+    #   fill_el -- the local that accumulates the _Fill(...) chain in the nesting loop
+    seq = last = fill_el = None
+    if len(conv) == 1:
+        seq = one(set(c.func.value.id for c in ast.walk(conv[0]) if isinstance(c, ast.Call) and isinstance(c.func, ast.Attribute)
+                      and c.func.attr == "append" and isinstance(c.func.value, ast.Name)))
+    last = one(set(st.targets[0].id for st in A.walk_local(fn) if isinstance(st, ast.Assign) and len(st.targets) == 1
+                   and isinstance(st.targets[0], ast.Name) and A.src(st.value) == "self._data_seq[-1]"))
+    if len(nest) == 1:
+        fill_el = one(set(st.targets[0].id for st in A.walk_body(nest[0].body) if isinstance(st, ast.Assign) and len(st.targets) == 1
+                          and isinstance(st.targets[0], ast.Name) and isinstance(st.value, ast.Call) and A.call_name(st.value) == "_Fill"))
+    m = local_map(fn, {"seq": seq, "last": last, "fill_el": fill_el})
+    N = lambda node: A.src_with(node, m)
     if ctx.require(len(conv) == 1 and len(nest) == 1, "C05-b", fn, "FillSeq.__init__: conversion loop and nesting loop not found"):
         c = conv[0]
         o = K.iter_order(c.iter, "self._data_seq", allow_slice="self._data_seq[:-1]")
@@ -459,7 +540,7 @@ def check_fill_seq(ctx):
                 continue
             apps = [cc for _, cc in q.calls() if isinstance(cc.func, ast.Attribute) and cc.func.attr == "append"]
             lits = q.literal_srcs()
-            ok = len(apps) == 1
+            ok = len(apps) == 1 and len(apps[0].args) == 1
             if ok:
                 a = apps[0].args[0]
                 if A.src(a) == el:
@@ -468,20 +549,21 @@ def check_fill_seq(ctx):
                     rv = resolve_local(q, A.src(a), len(q.ev)) if isinstance(a, ast.Name) else a
                     ok = isinstance(rv, ast.Call) and res.canon(rv.func) == "lena.core.adapters.FillInto" and len(rv.args) == 1 and A.src(rv.args[0]) == el
             ctx.check("C05-b", ok, c, "FillSeq.__init__ keeps an element that is neither fill_into-capable nor converted with FillInto "
-                      "[%s]" % q.describe(3), detail="FillSeq: element kept if it has fill_into, else FillInto(el)", construct="fillseq-conv:%s" % q.describe(2), path=q)
+                      "[%s]" % q.describe(3), detail="FillSeq: element kept if it has fill_into, else FillInto(el)", construct="fillseq-conv:%s" % pkey(fn, q), path=q)
         n = nest[0]
         it = n.iter
-        good = isinstance(it, ast.Call) and A.call_name(it) == "reversed" and len(it.args) == 1 and A.src(it.args[0]) == "seq[:-1]"
+        good = isinstance(it, ast.Call) and A.call_name(it) == "reversed" and len(it.args) == 1 and N(it.args[0]) == "seq[:-1]"
         if good:
             ctx.ok("C05-b", n, "FillSeq nests _Fill right to left over all elements but the last")
-        elif A.src(it) in ("seq[:-1]", "seq", "reversed(seq)"):
+        elif N(it) in ("seq[:-1]", "seq", "reversed(seq)"):
             ctx.violation("C05-b", n, "FillSeq.__init__ nests the transformers over `%s`: the chain must be built from the last "
-                          "transformer backwards (reversed(seq[:-1])) so that fill(value) applies them left to right" % A.src(it),
+                          "transformer backwards (reversed(<converted elements>[:-1])) so that fill(value) applies them left to right" % A.src(it),
                           construct="fillseq-nest-iter")
         else:
-            ctx.unknown("C05-b", n, "FillSeq.__init__ nests over `%s`" % A.src(it))
-        body = [s for s in n.body]
-        okb = len(body) == 1 and isinstance(body[0], ast.Assign) and A.src(body[0]) == "fill_el = _Fill(%s, fill_el)" % A.src(n.target)
+            ctx.unknown("C05-b", n, "FillSeq.__init__ nests over `%s`%s" % (
+                A.src(it), "" if seq is not None else " (the list of converted elements could not be identified)"))
+        body = real(n.body)
+        okb = fill_el is not None and len(body) == 1 and isinstance(body[0], ast.Assign) and N(body[0]) == "fill_el = _Fill(%s, fill_el)" % N(n.target)
         if okb:
             ctx.ok("C05-b", n, "fill_el = _Fill(el, fill_el)")
         else:
@@ -494,14 +576,18 @@ def check_fill_seq(ctx):
     asg = {}
     for s in fn.body:
         if isinstance(s, ast.Assign) and len(s.targets) == 1:
-            asg.setdefault(A.src(s.targets[0]), []).append(A.src(s.value))
-    ctx.check("C05-b", asg.get("self.fill") == ["fill_el.fill"], fn, "FillSeq.fill is bound to %s, not to the outermost _Fill" % asg.get("self.fill"),
-              detail="FillSeq.fill = outermost _Fill.fill", construct="fillseq-fill")
-    ctx.check("C05-b", asg.get("last") == ["self._data_seq[-1]"] and "last" in (asg.get("fill_el") or []), fn,
-              "FillSeq does not start the chain from its last element (the one that is filled)", detail="chain starts at the last element",
-              construct="fillseq-last")
-    guards = [i for i in fn.body if isinstance(i, ast.If) and "getattr(last, 'fill', None)" in A.src(i.test).replace('"', "'")]
-    okg = any(A.src(g.test).replace('"', "'") == "not callable(getattr(last, 'fill', None))" and isinstance(g.body[-1], ast.Raise) for g in guards)
+            asg.setdefault(A.src(s.targets[0]), []).append(s.value)
+    if ctx.require(fill_el is not None, "C05-b", fn, "FillSeq.__init__: the local that accumulates the _Fill chain could not be identified"):
+        bound = [N(v) for v in asg.get("self.fill", [])]
+        ctx.check("C05-b", bound == ["fill_el.fill"], fn, "FillSeq.fill is bound to %s, not to the outermost _Fill" % (
+            [A.src(v) for v in asg.get("self.fill", [])] or None), detail="FillSeq.fill = outermost _Fill.fill", construct="fillseq-fill")
+        # the chain starts from the last element: the accumulator is initialised (outside the loop) with self._data_seq[-1]
+        inits = [A.src(inline(fn, v)) for v in asg.get(fill_el, [])]
+        ctx.check("C05-b", "self._data_seq[-1]" in inits, fn,
+                  "FillSeq does not start the chain from its last element (the one that is filled)", detail="chain starts at the last element",
+                  construct="fillseq-last")
+    want = ["not callable(getattr(self._data_seq[-1], 'fill', None))"] + (["not callable(getattr(last, 'fill', None))"] if last is not None else [])
+    okg = any(N(g.test) in want and real(g.body) and isinstance(real(g.body)[-1], ast.Raise) for g in fn.body if isinstance(g, ast.If))
     ctx.check("C05-b", okg, fn, "FillSeq.__init__ does not reject a last element without a callable fill", detail="last element must have fill",
               construct="fillseq-last-guard")
 
@@ -565,16 +651,17 @@ def check_agree(ctx):
             test_run, fwd_run = g.generators[0].ifs[0], g.elt
     else:
         loop = flow_loop(ctx, run)
-        if loop is not None and len(loop.body) == 1 and isinstance(loop.body[0], ast.If) and not loop.body[0].orelse:
+        lbody = real(loop.body) if loop is not None else []
+        if len(lbody) == 1 and isinstance(lbody[0], ast.If) and not lbody[0].orelse:
             ys = [y for y in A.walk_body(loop.body) if isinstance(y, ast.Yield)]
             if len(ys) == 1:
-                var, test_run, fwd_run = loop.target.id, loop.body[0].test, ys[0].value
+                var, test_run, fwd_run = loop.target.id, lbody[0].test, ys[0].value
     ps = [p for p in A.func_params(fi) if p != "self"]
     body = A.body_wo_doc(fi)
     if ctx.require(test_run is not None and len(ps) == 2 and len(body) == 1 and isinstance(body[0], ast.If), "C05-d", run,
                    "Filter.run / Filter.fill_into: unrecognised shape"):
         iff = body[0]
-        norm = lambda e, v: A.src(e).replace(v, "<V>") if e is not None else None
+        norm = lambda e, v: A.src_with(e, {v: "<V>"}) if e is not None else None
         t1, t2 = norm(test_run, var), norm(iff.test, ps[1])
         ctx.check("C05-d", t1 == t2, iff, "Filter.run keeps a value when `%s`, Filter.fill_into fills it when `%s`: a filter before an "
                   "accumulator selects different values in a Sequence and in a FillComputeSeq/Split" % (A.src(test_run), A.src(iff.test)),
@@ -600,8 +687,15 @@ def check_agree(ctx):
                   "and passes every value on" % (len(incs), len(fills), p.describe(3)), detail="Count.fill_into: count += 1 once, fill once",
                   construct="count-fill-into", path=p)
     run = ctx.tree.func("lena.flow.elements", "Count.run")
-    u1 = [A.src(c) for c in A.walk_local(fn) if isinstance(c, ast.Call) and isinstance(c.func, ast.Attribute) and c.func.attr == "update"]
-    u2 = [A.src(c) for c in A.walk_local(run) if isinstance(c, ast.Call) and isinstance(c.func, ast.Attribute) and c.func.attr == "update"]
+    def updates(f):
+        """update(...) calls of f, the context unpacked from get_data_context(...) written `<context>` whatever f calls it."""
+        m = {}
+        for st in A.walk_local(f):
+            if isinstance(st, ast.Assign) and len(st.targets) == 1 and isinstance(st.targets[0], ast.Tuple) and len(st.targets[0].elts) == 2 \
+                    and isinstance(st.value, ast.Call) and A.call_name(st.value) == "get_data_context" and isinstance(st.targets[0].elts[1], ast.Name):
+                m[st.targets[0].elts[1].id] = "<context>"
+        return [A.src_with(c, m) for c in A.walk_local(f) if isinstance(c, ast.Call) and isinstance(c.func, ast.Attribute) and c.func.attr == "update"]
+    u1, u2 = updates(fn), updates(run)
     ctx.check("C05-d", u1 == u2 and len(u1) == 1, fn, "Count.run adds %s to the context, Count.fill_into adds %s" % (u2, u1),
               detail="Count: run and fill_into add {self.name: self.count}", construct="count-context")
     # Slice.fill_into
@@ -626,33 +720,48 @@ def check_agree(ctx):
             ok = ok and A.src(fills[0]) == "%s.fill(%s)" % (ps[0], ps[1])
         ctx.check("C05-d", ok, fn, "Slice.fill_into on path [%s]: %d fill(s), index advanced %d time(s); a value is filled exactly when "
                   "its index is the selected one and the index advances once per value" % (p.describe(3), len(fills), len(incs)),
-                  detail="Slice.fill_into [%s]: fill iff selected, _index += 1 once" % p.describe(2), construct="slice-fill:%s" % p.describe(2), path=p)
+                  detail="Slice.fill_into [%s]: fill iff selected, _index += 1 once" % p.describe(2), construct="slice-fill:%s" % pkey(fn, p), path=p)
     ctx.instances_floor("C05-d/slice", n, 3, "normal paths of Slice.fill_into")
 
 
 # -- C05-f ---------------------------------------------------------------------------------
 def check_seq_split(ctx, modname, qual, pred_src, is_helper=False):
+    """Returns the name of the local that holds the accumulator found (None if it could not be identified)."""
     fn = ctx.tree.func(modname, qual)
     name = qual.split(".")[0]
     loops = [l for l in fn.body if isinstance(l, ast.For)]
     if not ctx.require(len(loops) == 2, "C05-f", fn, "%s: expected the search loop and the `after` loop" % qual):
-        return
+        return None
     search, rest = loops
-    okit = isinstance(search.iter, ast.Call) and A.call_name(search.iter) == "enumerate" and isinstance(search.target, ast.Tuple)
+    okit = isinstance(search.iter, ast.Call) and A.call_name(search.iter) == "enumerate" and isinstance(search.target, ast.Tuple) \
+        and len(search.target.elts) == 2 and len(search.iter.args) == 1
     if not ctx.require(okit, "C05-f", search, "%s: the search loop is not `for ind, el in enumerate(<elements>)`" % qual):
-        return
+        return None
     base = A.src(search.iter.args[0])
     ind, el = [A.src(e) for e in search.target.elts]
+    # The locals are identified by the role they play, not by what the code calls them:
+    #   before -- the list the search loop appends the pre-processing elements to
+    #   after  -- the list the second loop appends to
+    #   acc    -- the local the search loop stores the element found in
+    def appended_to(loop):
+        return one(set(c.func.value.id for c in A.walk_body(loop.body) if isinstance(c, ast.Call) and isinstance(c.func, ast.Attribute)
+                       and c.func.attr == "append" and isinstance(c.func.value, ast.Name)))
+    before, after = appended_to(search), appended_to(rest)
+    acc = one(set(st.targets[0].id for st in A.walk_body(search.body) if isinstance(st, ast.Assign) and len(st.targets) == 1
+                  and isinstance(st.targets[0], ast.Name) and A.src(st.value) == el))
+    m = local_map(fn, {"before": before, "after": after, "acc": acc})
+    N = lambda node: A.src_with(node, m)
     n = 0
     for q in P.loop_body_paths(search):
         lits = q.literal_srcs()
-        apps = [A.src(c) for _, c in q.calls() if isinstance(c.func, ast.Attribute) and c.func.attr == "append"]
+        apps = [N(c) for _, c in q.calls() if isinstance(c.func, ast.Attribute) and c.func.attr == "append"]
         found = pred_src % el in lits
         notfound = "not " + (pred_src % el) in lits
         n += 1
         if notfound:
             ok = apps == ["before.append(%s)" % el] and q.end in ("fall", "continue")
-            ctx.check("C05-f", ok, search, "%s: an element before the first accumulator is not appended to `before` exactly once [%s]" % (qual, q.describe(3)),
+            ctx.check("C05-f", ok, search, "%s: an element before the first accumulator is not appended to the list of pre-processing "
+                      "elements exactly once [%s]" % (qual, q.describe(3)),
                       detail="%s: pre-processing elements go to `before` in order" % name, construct="seq-before:%s" % name, path=q)
         elif found:
             ok = not apps and q.end == "break"
@@ -668,41 +777,47 @@ def check_seq_split(ctx, modname, qual, pred_src, is_helper=False):
                       "itself or an element would be applied twice / lost" % (qual, A.src(rest.iter), want), construct="seq-after-iter:%s" % name)
     else:
         ctx.unknown("C05-f", rest, "%s: `after` loop iterates `%s`" % (qual, A.src(rest.iter)))
-    body_ok = len(rest.body) == 1 and A.src(rest.body[0]) == "after.append(%s)" % A.src(rest.target)
+    rbody = real(rest.body)
+    body_ok = after is not None and len(rbody) == 1 and N(rbody[0]) == "after.append(%s)" % A.src(rest.target)
     if ctx.require(body_ok, "C05-f", rest, "%s: unrecognised body of the `after` loop" % qual):
         ctx.ok("C05-f", rest, "%s: after.append(el) in order" % name)
     asg = {}
     order = []
     for s in fn.body:
         if isinstance(s, ast.Assign) and len(s.targets) == 1:
-            asg[A.src(s.targets[0])] = A.src(s.value)
+            asg[A.src(s.targets[0])] = s.value
         for c in ast.walk(s):
-            if isinstance(c, ast.Call) and isinstance(c.func, ast.Attribute) and c.func.attr == "append" and A.src(c.func.value) == "before" \
+            if isinstance(c, ast.Call) and isinstance(c.func, ast.Attribute) and c.func.attr == "append" and N(c.func.value) == "before" \
                     and not any(a is search for a in A.ancestors(c)):
-                order.append(A.src(c))
-        for t in ast.walk(s):
-            if isinstance(t, ast.Try):
-                for b in t.body:
-                    if isinstance(b, ast.Assign) and len(b.targets) == 1:
-                        asg[A.src(b.targets[0])] = A.src(b.value)
-    acc = "fc_el" if not is_helper else "el"
-    ctx.check("C05-f", order == ["before.append(%s)" % acc], fn, "%s: the accumulator is not appended to `before` (once, after the "
-              "pre-processing elements): %s" % (qual, order), detail="%s: before = pre-processing + [accumulator]" % name, construct="seq-before-acc:%s" % name)
-    ctx.check("C05-f", asg.get("before_seq") == "FillSeq(*before)" and asg.get("self._fill_seq") == "before_seq"
-              and asg.get("self.fill") == "self._fill_seq.fill", fn, "%s does not fill through FillSeq(*before) (%s)" % (
-                  qual, {k: asg.get(k) for k in ("before_seq", "self._fill_seq", "self.fill")}),
-              detail="%s: fill = FillSeq(*before).fill" % name, construct="seq-fillseq:%s" % name)
-    ctx.check("C05-f", asg.get("self._after") == "sequence.Sequence(*after)", fn, "%s: _after is `%s`, not Sequence(*after)" % (qual, asg.get("self._after")),
-              detail="%s: _after = Sequence(*after)" % name, construct="seq-after:%s" % name)
+                order.append(N(c))
+    show = lambda k: A.src(asg[k]) if k in asg else None
+    if ctx.require(before is not None and acc is not None, "C05-f", fn, "%s: the list of pre-processing elements / the local holding the "
+                   "accumulator found could not be identified" % qual):
+        ctx.check("C05-f", order == ["before.append(acc)"], fn, "%s: the accumulator is not appended to the pre-processing elements (once, after "
+                  "them): %s" % (qual, order), detail="%s: before = pre-processing + [accumulator]" % name, construct="seq-before-acc:%s" % name)
+        # self._fill_seq may be given the FillSeq directly or through a local defined once (also inside a try block)
+        fs = asg.get("self._fill_seq")
+        fs = N(inline(fn, fs)) if fs is not None else None
+        ctx.check("C05-f", fs == "FillSeq(*before)" and show("self.fill") == "self._fill_seq.fill", fn,
+                  "%s does not fill through FillSeq(*<pre-processing elements + accumulator>) (%s)" % (
+                      qual, dict((k, show(k)) for k in ("self._fill_seq", "self.fill"))),
+                  detail="%s: fill = FillSeq(*before).fill" % name, construct="seq-fillseq:%s" % name)
+    if ctx.require(after is not None, "C05-f", fn, "%s: the list of post-processing elements could not be identified" % qual):
+        af = asg.get("self._after")
+        af = N(inline(fn, af)) if af is not None else None
+        ctx.check("C05-f", af == "sequence.Sequence(*after)", fn, "%s: _after is `%s`, not Sequence(*<elements after the accumulator>)" % (qual, show("self._after")),
+                  detail="%s: _after = Sequence(*after)" % name, construct="seq-after:%s" % name)
+    return acc
 
 
 def check_seqs(ctx):
-    check_seq_split(ctx, "lena.core.fill_compute_seq", "FillComputeSeq.__init__", "check_sequence_type.is_fill_compute_el(%s)")
+    acc = check_seq_split(ctx, "lena.core.fill_compute_seq", "FillComputeSeq.__init__", "check_sequence_type.is_fill_compute_el(%s)")
     check_seq_split(ctx, "lena.core.fill_compute_seq", "_init_sequence_with_el", "check_el_type(%s)", is_helper=True)
     init = ctx.tree.func("lena.core.fill_compute_seq", "FillComputeSeq.__init__")
     asg = {A.src(s.targets[0]): A.src(s.value) for s in init.body if isinstance(s, ast.Assign) and len(s.targets) == 1}
-    ctx.check("C05-f", asg.get("self._fill_compute") == "fc_el", init, "FillComputeSeq._fill_compute is `%s`, not the accumulator found" % asg.get("self._fill_compute"),
-              detail="_fill_compute = the first FillCompute element", construct="fc-el")
+    if ctx.require(acc is not None, "C05-f", init, "FillComputeSeq.__init__: the local holding the accumulator found could not be identified"):
+        ctx.check("C05-f", asg.get("self._fill_compute") == acc, init, "FillComputeSeq._fill_compute is `%s`, not the accumulator found" % asg.get("self._fill_compute"),
+                  detail="_fill_compute = the first FillCompute element", construct="fc-el")
     # FillRequestSeq wires the helper with the fill_request predicate
     frs = ctx.tree.func("lena.core.fill_request_seq", "FillRequestSeq.__init__")
     calls = [c for c in A.walk_local(frs) if isinstance(c, ast.Call) and A.call_name(c) == "_init_sequence_with_el"]
@@ -739,7 +854,7 @@ def check_seqs(ctx):
                 want = inner
             ctx.check("C05-f", got == want, rets[0], "%s returns `%s` on path [%s]; expected %s: the results of the accumulator must pass "
                       "through every post-processing element" % (qual, got, p.describe(3), want), detail="%s returns %s" % (qual, want),
-                      construct="seq-result:%s:%s" % (qual, p.describe(2)), path=p)
+                      construct="seq-result:%s:%s" % (qual, pkey(fn, p)), path=p)
 
 
 def check(ctx):
